@@ -252,7 +252,7 @@ def x7(rep, w):
     c = w.yarel
     tab = {e['fn']: e for e in c01.table('c08_after_unwind_ok.json')}
     r = rep.rule('X7', 'after a raised error was delivered to a handler (try_handle_error / unwind_stack returned Ok) the raising function '
-                 'does nothing more to the machine state', floor=20)
+                 'does nothing more to the machine state', floor=15)
 
     def mutating(f, t):
         n = callee_name(t)
